@@ -301,7 +301,9 @@ class RadioDriver(CRTPDriver):
 
         parsed_uri = urlparse(uri)
         parsed_query = parse_qs(parsed_uri.query)
-        parsed_path = parsed_uri.path.strip('/').split('/')
+        stripped_path = parsed_uri.path.strip('/')
+        # ''.split('/') is [''], not []: an URI without channel uses the defaults
+        parsed_path = stripped_path.split('/') if stripped_path else []
 
         # Open the USB dongle
         if len(parsed_uri.netloc) < 10 and parsed_uri.netloc.isdigit():
